@@ -12,7 +12,7 @@ open Util
   gctx <hex>   the same on arbitrary bytes         → ok
   gti / gtix <hex>  metadata.go getTypeInfo
   a2c  <hex>   helpers.go apacheToCassandraType    → ok:<hex> -/
-def typeStr (ws : List String) : Option String :=
+def typeStr (fx : Bool) (ws : List String) : Option String :=
   match ws with
   | [op, h] =>
     match parseHex h with
@@ -20,25 +20,25 @@ def typeStr (ws : List String) : Option String :=
     | some bs =>
       let s := TypeStr.bytesOfHex bs
       match op with
-      | "ts" => some (TypeStr.renderOut TypeStr.renderResult (TypeStr.parseType false s))
+      | "ts" => some (TypeStr.renderOut TypeStr.renderResult (TypeStr.parseType fx s))
       | "gct" => some (TypeStr.renderOut TypeStr.renderTy (TypeStr.getCassandraType s))
       | "gctx" => some (TypeStr.renderOut (fun _ => "") (TypeStr.getCassandraType s) |>.dropEndWhile (· == ':') |>.toString)
-      | "gti" => some (TypeStr.renderOut TypeStr.renderTy (TypeStr.getTypeInfo s))
-      | "gtix" => some (TypeStr.renderOut (fun _ => "") (TypeStr.getTypeInfo s) |>.dropEndWhile (· == ':') |>.toString)
-      | "a2c" => some ("ok:" ++ TypeStr.hexOf (TypeStr.apacheToCassandraType s))
+      | "gti" => some (TypeStr.renderOut TypeStr.renderTy (TypeStr.getTypeInfoFx fx s))
+      | "gtix" => some (TypeStr.renderOut (fun _ => "") (TypeStr.getTypeInfoFx fx s) |>.dropEndWhile (· == ':') |>.toString)
+      | "a2c" => some ("ok:" ++ TypeStr.hexOf (TypeStr.apacheToCassandraTypeFx fx s))
       | _ => none
   | _ => none
 
 /-- frame <proto> <resp 0|1> <flags> <op> <hex body> ; rows <proto> <flags> <hex body> ;
     hdr <hex wire> ; body <proto> <length> <flags> <hex avail> -/
-def frameOps (ws : List String) : Option String :=
+def frameOps (fx : Bool) (ws : List String) : Option String :=
   let bytes (h : String) : Option (List Nat) := (parseHex h).map (fun bs => bs.map (·.toNat))
   match ws with
   | ["frame", proto, resp, flags, op, h] =>
     match proto.toNat?, resp.toNat?, flags.toNat?, op.toNat?, bytes h with
     | some proto, some resp, some flags, some op, some body =>
       if FrameCrash.bit flags 0 then some "err" else
-      some (match FrameCrash.parseFrame false (proto % 128) (resp == 1) flags op body with
+      some (match FrameCrash.parseFrame fx (proto % 128) (resp == 1) flags op body with
         | .ok fr _ => "ok:" ++ fr.kind
         | .err _ => "err"
         | .crash s _ => "crash:" ++ s.label)
@@ -47,9 +47,9 @@ def frameOps (ws : List String) : Option String :=
     match proto.toNat?, flags.toNat?, bytes h with
     | some proto, some flags, some body =>
       if FrameCrash.bit flags 0 then some "err" else
-      some (match FrameCrash.parseFrame false (proto % 128) true flags 8 body with
+      some (match FrameCrash.parseFrame fx (proto % 128) true flags 8 body with
         | .ok (.rows m n) st =>
-          (match RowsCrash.scanAll false m n st.buf with
+          (match RowsCrash.scanAll fx m n st.buf with
            | .ok k => "ok:rows:" ++ toString k
            | .capped => "ok:rows:capped"
            | .err k => "err:rows:" ++ toString k
@@ -75,17 +75,34 @@ def frameOps (ws : List String) : Option String :=
     | _, _, _ => some "bad-op"
   | _ => none
 
-def step (_ : Unit) (ws : List String) : Unit × String :=
-  ((), match typeStr ws with
+/-- driver state: which variant of the models answers — `false` = the code as it is (the default,
+what props/C05.json's theorems are about), `true` = the code with props/C05.fix-*.diff applied
+(Model/*Fixed.lean, Proofs/C05Fixed.lean). The op line `mode fixed` (emitted first by the harness when
+VERIF_C05_FIXED=1) switches; the integrator flips `init` after committing the fixes. -/
+def step (fx : Bool) (ws : List String) : Bool × String :=
+  match ws with
+  | ["mode", "fixed"] => (true, "mode:fixed")
+  | ["mode", "current"] => (false, "mode:current")
+  -- the end-to-end EVENT scenario (STATUS_CHANGE "UP", inet size 16, 2 bytes, on stream -1 of a live
+  -- v4 connection) is answered by the frame model: the witness of C05.C05_cex_frame_event_short_inet
+  | ["e2e", "event-short-inet"] =>
+    (fx, match FrameCrash.parseFrame fx 4 true 0 0x0C
+              [0, 13, 83, 84, 65, 84, 85, 83, 95, 67, 72, 65, 78, 71, 69, 0, 2, 85, 80, 16, 254, 128] with
+         | .crash .inetBody _ => "crash:framer.readInetAdressOnly:slice"
+         | .crash s _ => "crash:" ++ s.label
+         | .err _ => "parse-error"
+         | .ok _ _ => "survived")
+  | _ =>
+    (fx, match typeStr fx ws with
        | some a => a
        | none =>
-         match frameOps ws with
+         match frameOps fx ws with
          | some a => a
          | none =>
            -- disp / beh / disparms / dispctx / dispsites / dispkinds / dispfact / e2e: Model/Dispatch.lean
-           match Dispatch.answer ws with
+           match Dispatch.answerFx fx ws with
            | some a => a
            | none => "bad-op")
 
-def init : Unit := ()
+def init : Bool := false
 end Driver.C05
